@@ -28,6 +28,11 @@ type c11Case struct {
 	// command changes nothing: the judged line is read as if it came first.
 	Before          Octets `json:"before,omitempty"`
 	BeforeRefusedBy string `json:"before_refused_by,omitempty"`
+	// PriorTxn (optional): a whole transaction on the connection before the
+	// judged line: "data" (DATA, accepted), "bdat" (one LAST chunk), "bdat2"
+	// (two chunks), "bdat-rset" (a chunk, then RSET). A finished or abandoned
+	// transaction leaves nothing behind.
+	PriorTxn string `json:"prior_txn,omitempty"`
 }
 
 func c11Run(c c11Case) Verdict {
@@ -52,6 +57,10 @@ func c11Run(c c11Case) Verdict {
 		switch {
 		case c.BeforeRefusedBy == "backend" && bres.Class == ref.Valid:
 			beforeCalls = 1
+			if c.PriorTxn != "" {
+				// the earlier transaction's own MAIL / RCPT is accepted
+				refusal = append([]harness.Decision{{}}, refusal...)
+			}
 			if c.Mail {
 				script.Mail = refusal
 			} else {
@@ -77,9 +86,27 @@ func c11Run(c c11Case) Verdict {
 	var sb strings.Builder
 	sb.WriteString("EHLO cli\r\n")
 	nPre := 1
+	switch c.PriorTxn {
+	case "data":
+		sb.WriteString("MAIL FROM:<p@x>\r\nRCPT TO:<p@y>\r\nDATA\r\nhi\r\n.\r\n")
+		nPre += 4
+	case "bdat":
+		sb.WriteString("MAIL FROM:<p@x>\r\nRCPT TO:<p@y>\r\nBDAT 2 LAST\r\nhi")
+		nPre += 3
+	case "bdat2":
+		sb.WriteString("MAIL FROM:<p@x>\r\nRCPT TO:<p@y>\r\nBDAT 2\r\nhiBDAT 0 LAST\r\n")
+		nPre += 4
+	case "bdat-rset":
+		sb.WriteString("MAIL FROM:<p@x>\r\nRCPT TO:<p@y>\r\nBDAT 2\r\nhiRSET\r\n")
+		nPre += 4
+	}
+	priorCalls, nPrior := 0, nPre-1
+	if c.PriorTxn != "" {
+		priorCalls = 1 // the earlier transaction's own Mail / Rcpt callback
+	}
 	if !c.Mail {
 		sb.WriteString("MAIL FROM:<s@x>\r\n")
-		nPre = 2
+		nPre++
 	}
 	if before != "" {
 		sb.WriteString(c.Verb + " " + before + "\r\n")
@@ -112,6 +139,14 @@ func c11Run(c c11Case) Verdict {
 		return failf("one-reply", "line %q: expected exactly one reply to the command (banner, %d preamble replies, the reply, 221), got %v (%v)", c.Verb+" "+arg, nPre, codes(rs), err)
 	}
 	rp := rs[1+nPre]
+	if c.PriorTxn != "" {
+		v.Classes = append(v.Classes, "after_transaction_"+c.PriorTxn)
+		for _, prp := range rs[2 : 2+nPrior] {
+			if prp.Class() != 2 && prp.Class() != 3 {
+				return Verdict{Inconclusive: fmt.Sprintf("the earlier transaction did not go through: %v", codes(rs))}
+			}
+		}
+	}
 	if before != "" {
 		v.Classes = append(v.Classes, "after_command_refused_by_"+c.BeforeRefusedBy)
 		if brp := rs[nPre]; brp.Class() == 2 || brp.Class() == 3 {
@@ -121,7 +156,7 @@ func c11Run(c c11Case) Verdict {
 	evs := r.B.Events()
 	var call *harness.Event
 	ncalls := 0
-	skip := beforeCalls
+	skip := beforeCalls + priorCalls
 	for i, e := range evs {
 		if !e.Begin {
 			continue
@@ -558,6 +593,9 @@ func c11Gen(t *rapid.T) c11Case {
 			b += " " + rapid.SampledFrom([]string{"FOO=bar", "X", "SIZE=abc", "BODY=9BIT", "NOTIFY=SOMETIMES", "RRVS=yesterday", "a=b=c"}).Draw(t, "before_odd")
 		}
 		c.Before = Octets(b)
+	}
+	if rapid.IntRange(0, 4).Draw(t, "prior_txn") == 0 {
+		c.PriorTxn = rapid.SampledFrom([]string{"data", "bdat", "bdat2", "bdat-rset"}).Draw(t, "prior_txn_kind")
 	}
 	return c
 }
